@@ -1078,6 +1078,7 @@ func runE2E(c *corr.Ctx) {
 	runMulti(c)
 	runSwitches(c)
 	runUnobservedAll(c)
+	runDescGaps(c)
 	runRTCPSizes(c)
 	runAdmission(c)
 	runClientSide(c)
@@ -1087,6 +1088,8 @@ func replayE2E(c *corr.Ctx, in *Input) {
 	switch in.Kind {
 	case "e2e":
 		runSession(c, in.E2E, "replay")
+	case "descgap":
+		runDescGap(c, in.DescGap, "descgap-replay")
 	case "rtcpsize":
 		runRTCPSize(c, in.RTCPSize, "rtcpsize-replay")
 	case "unobserved":
